@@ -6,6 +6,8 @@ CONSTANTS
   MaxData = 3
   PoolN = 6
   Depth3 = TRUE
+  M_ShiftOnce = TRUE
+  PartsOn = {}
   D_FoldWidth = TRUE
   D_ContainerNul = TRUE
   D_EmptyContainerLen = TRUE
